@@ -84,3 +84,63 @@ def joined_after_copy_of_iterable(names) -> str:
 
 def _as_set(names) -> set[str]:
     return set(names)
+
+
+def _parts_sorted(groups: dict[str, set[str]], subjects: set[str]) -> list[tuple[str, str, list[str]]]:
+    parts = []
+    for subject in subjects:
+        objects = sorted(o.strip() for o in groups[subject])
+        parts.append((subject.strip(), "imports", objects))
+    return parts
+
+
+def joined_sorted_inside_tuple(groups: dict[str, set[str]], subjects: set[str]) -> set[str]:
+    lines = set()
+    for subject, verb, objects in _parts_sorted(groups, subjects):
+        lines.add(f"{subject} {verb} " + ", ".join(objects))
+    return lines
+
+
+def _parts_unsorted(groups: dict[str, set[str]], subjects: set[str]) -> list[tuple[str, str, list[str]]]:
+    parts = []
+    for subject in subjects:
+        objects = [o.strip() for o in groups[subject]]
+        parts.append((subject.strip(), "imports", objects))
+    return parts
+
+
+def joined_unsorted_inside_tuple(groups: dict[str, set[str]], subjects: set[str]) -> set[str]:
+    lines = set()
+    for subject, verb, objects in _parts_unsorted(groups, subjects):
+        lines.add(f"{subject} {verb} " + ", ".join(objects))
+    return lines
+
+
+def _iter_parts_sorted(groups: dict[str, set[str]], subjects: set[str]):
+    for subject in subjects:
+        yield subject.strip(), sorted(groups[subject])
+
+
+def joined_sorted_inside_yielded_tuple(groups: dict[str, set[str]], subjects: set[str]) -> set[str]:
+    return {subject + ": " + ", ".join(objects) for subject, objects in _iter_parts_sorted(groups, subjects)}
+
+
+def _iter_parts_unsorted(groups: dict[str, set[str]], subjects: set[str]):
+    for subject in sorted(subjects):
+        yield subject.strip(), list(groups[subject])
+
+
+def joined_unsorted_inside_yielded_tuple(groups: dict[str, set[str]], subjects: set[str]) -> list[str]:
+    lines = []
+    for part in _iter_parts_unsorted(groups, subjects):
+        lines.append(part[0] + ": " + ", ".join(part[1]))
+    return lines
+
+
+def _iter_names(names: set[str]):
+    for name in names:
+        yield name.upper()
+
+
+def joined_from_generator_over_set(names: set[str]) -> str:
+    return ", ".join(_iter_names(names))
